@@ -33,6 +33,7 @@ from liquid.token import TOKEN_WITH
 from liquid.token import TOKEN_WORD
 from liquid.token import Token
 from liquid.utils import ReadOnlyChainMap
+from liquid.limits import to_str
 
 if TYPE_CHECKING:
     from liquid.context import RenderContext
@@ -254,7 +255,7 @@ class RenderNode(Node):
             name = self.name.evaluate(static_context)
             try:
                 template = static_context.env.get_template(
-                    str(name), context=static_context, tag=self.tag
+                    to_str(name), context=static_context, tag=self.tag
                 )
                 yield from template.nodes
             except TemplateNotFoundError as err:
@@ -277,7 +278,7 @@ class RenderNode(Node):
             name = await self.name.evaluate_async(static_context)
             try:
                 template = await static_context.env.get_template_async(
-                    str(name), context=static_context, tag=self.tag
+                    to_str(name), context=static_context, tag=self.tag
                 )
                 return template.nodes
             except TemplateNotFoundError as err:
